@@ -1,11 +1,12 @@
 (* C18 -- Incremental (ReDB) persistence recovers a prefix of what was applied.
    Statements only.  Model: Model/Redb.v (persistence/redb/mod.rs, the queueing in persistence/mod.rs and worterbuch.rs).
    redb's own guarantee -- a committed write transaction is atomic and durable -- is trusted.
-   PARTIAL: that the table follows the store request by request (which action each accepted change queues) is in the
-   executable model and compared with the real server, not proved; CAS versions are known finding F13. *)
+   The table follows the store request by request (C18_table_tracks_store: set / cset / delete / pdelete histories,
+   any keys, accepted or refused).  PARTIAL: registrations, session ends, imports and load are in the executable model
+   and compared with the real server, not proved; CAS versions are known finding F13 (row_of). *)
 From Coq Require Import List.
 Import ListNotations.
-From WB Require Import Base.Str Base.Json Model.Key Model.Store Model.Entry Model.Core Model.Persist Model.Redb Proofs.RedbFacts.
+From WB Require Import Base.Str Base.Json Model.Key Model.Store Model.Entry Model.Core Model.Persist Model.Redb Proofs.RedbFacts Proofs.CoreFacts Proofs.RedbTrack.
 
 (* every cut the writer can produce: whatever the scheduler lets each wake-up find in the channel, the disk holds the
    result of a prefix of the queued single-key changes, in order; the rest is still queued, in order *)
@@ -24,6 +25,18 @@ Theorem C18_writer_progress :
   forall n t a q, (length (snd (wake n (t, a :: q))) < length (a :: q))%nat.
 Proof. exact wake_progress. Qed.
 Print Assumptions C18_writer_progress.
+
+(* the rows follow the store: after the queued actions of any history of client writes, the row of every user key is
+   the stored entry (row_of: with the version the request carried, F13) and keys without a value have no row *)
+Theorem C18_table_tracks_store :
+  forall ws s t, Inv s -> tracks s t -> wnocrash s ws ->
+  let '(s', acts) := wrun s ws in Inv s' /\ tracks s' (apply_all t acts).
+Proof. exact table_tracks_store. Qed.
+Print Assumptions C18_table_tracks_store.
+
+Theorem C18_tracks_init : tracks init t_empty.
+Proof. exact tracks_init. Qed.
+Print Assumptions C18_tracks_init.
 
 (* known finding F13 *)
 Theorem C18_version_refuted :
